@@ -118,6 +118,7 @@ func ParseExpr(s string) (Expr, error) {
 func ParseSource(s string) (Source, error) {
 	p := NewParser(strings.NewReader(s))
 	defer p.Release()
+	p.s.s.checkDOT = true // a source is read as after FROM: dots separate database, retention policy and name
 	return p.parseSource(true)
 }
 
